@@ -26,12 +26,14 @@ var checkedPorts = map[string]bool{
 	"ServerConfig.VhostHTTPPort": true, "ServerConfig.VhostHTTPSPort": true, "ServerConfig.TCPMuxHTTPConnectPort": true,
 	"ServerConfig.WebServer.Port": true, "ClientCommonConfig.WebServer.Port": true,
 	"proxy.ProxyBaseConfig.ProxyBackend.LocalPort": true,
+	// since the repair 8be3cd7 (remotePort: client-side validation of tcp and udp proxies)
+	"ServerConfig.SSHTunnelGateway.BindPort": true, "ClientCommonConfig.ServerPort": true, "proxy.RemotePort": true,
 }
 
 // not range-checked by the validation layer at the pinned commit (design/C18.md): what is accepted is recorded
 var uncheckedPorts = map[string]bool{
-	"ServerConfig.SSHTunnelGateway.BindPort": true, "ClientCommonConfig.ServerPort": true,
-	"visitor.VisitorBaseConfig.BindPort": true, "proxy.RemotePort": true,
+	// a visitor's bindPort only has to be non-zero: a negative value is the documented "do not listen"
+	"visitor.VisitorBaseConfig.BindPort": true,
 }
 
 type portField struct {
